@@ -306,6 +306,13 @@ fn probe(args: &Args) {
         } } } } } }
         println!("SIZED16 total={} failed-at-bound={} worst(len-bound)={}", total, fails, worst);
     }
+    if which == "jobs" {
+        let input = b"abcdefgh".to_vec();
+        let p = mk_params(5, 22, false, false, false, false, false);
+        let jobs: Vec<String> = recompute_jobs(&p, &input, 2).iter().map(|j| j.token.clone()).collect();
+        let o = run_multi(Spawner::Inline, &p, &input, 2, BrotliEncoderMaxCompressedSizeMulti(8, 2), None);
+        println!("JOBS {:?} -> {} {} (bound {})", jobs, o.class, hex(&o.bytes), BrotliEncoderMaxCompressedSizeMulti(8, 2));
+    }
     if which == "d16grid" {
         // favor on/off over quality x {no truncation, truncation}; counts of differing / wrong outputs
         for q in 0..=11 {
